@@ -2,6 +2,7 @@ package aggregator
 
 import (
 	"crypto/md5"
+	"errors"
 	"fmt"
 	"sort"
 	"sync"
@@ -63,6 +64,16 @@ func NewMocked(fun string, matcher matcher.Matcher, outFmt string, cache bool, i
 	if err != nil {
 		return nil, err
 	}
+	if matcher.Regex == "" {
+		return nil, errors.New("an aggregation needs a regex")
+	}
+	// the upper bounds also catch negative numbers that were converted to uint
+	if interval == 0 || interval > maxIntervalWait {
+		return nil, fmt.Errorf("aggregation interval must be between 1 and %d seconds", maxIntervalWait)
+	}
+	if wait > maxIntervalWait {
+		return nil, fmt.Errorf("aggregation wait must be between 0 and %d seconds", maxIntervalWait)
+	}
 
 	a := &Aggregator{
 		Fun:          fun,
@@ -93,6 +104,9 @@ func NewMocked(fun string, matcher matcher.Matcher, outFmt string, cache bool, i
 	go a.run()
 	return a, nil
 }
+
+// maxIntervalWait is the largest interval/wait we accept, in seconds (10 years)
+const maxIntervalWait = 10 * 365 * 24 * 3600
 
 type TsSlice []uint
 
